@@ -474,8 +474,8 @@ def gen_exports_big(rng, tier):
             for so in ("exp_indices", "exp_names", "exports"):
                 for h in ("count", "len,nth:0xfffe,next,next,next,count", "nth:0xffff,next,hint", "hint,next,hint"):
                     case.append("iter %s %s%s %s" % (k, pre, so, h))
-        case += ["export %s name 41" % kf, "export wf name 41", "export %s hint 65535" % kf, "export wf hint 65535",
-                 "export %s hint 65536" % kf, "export wf hint 65536", "export %s name_lookup 0" % kf, "export wf name_lookup 0"]
+        # (only the iterator histories: the model's lookups over 65536 names take a minute, the table lengths at the
+        # 16-bit boundary matter for the iterators' ranges)
         cases.append(case)
     return cases
 
